@@ -59,6 +59,8 @@ func whatOf(o *Outcome) string {
 		return fmt.Sprintf("hang: %s", o.Panic)
 	case "no-terminal":
 		return "finite input did not reach a terminal result: " + o.Panic
+	case "memory":
+		return "memory exhaustion: " + o.Panic
 	case "fatal":
 		return "unrecoverable runtime failure (the process died, recover() cannot catch it): " + o.Panic
 	}
@@ -228,7 +230,7 @@ func main() {
 
 	seeds := append(fixtureSeeds(), sampleSeeds()...)
 	sum.Extra["sample_schemas_loaded"] = len(seeds) - 7
-	nSchemas := o.Count(1600, 40000)
+	nSchemas := o.Count(1200, 40000)
 	inputsPer := 3
 	t0 := time.Now()
 	for i := 0; i < nSchemas && hangs < 6; i++ {
@@ -326,7 +328,7 @@ func (x *runner) one(sd *Seed, inputsPer int) {
 	if !mutated && sd.Origin != "generated" {
 		sum.Hist("schema:pristine-accepted")
 	}
-	x.faultRuns(sd, sch, schema, muts, 2)
+	x.faultRuns(sd, sch, schema, muts, 1)
 	for k := 0; k < inputsPer; k++ {
 		in, kind := genInput(r, sd)
 		sum.Hist("input:" + strings.SplitN(kind, "+", 2)[0])
